@@ -9,6 +9,14 @@ ids = [json.loads(l)['id'] for l in (V / 'properties.jsonl').read_text().splitli
 TECH = 'contract-based deductive verification: own VC generator (pyvc) over the real .py/.pyx source, sidecar contracts, z3/cvc5'
 
 CLAIMED = {
+	'C03': dict(
+		text='Taxon.ancestors (generator), matching_taxon, reportable_taxon, GenomeMatch.next_taxon (three loops), the attrs default methods and classify(strict=False) are verified over a ghost forest theory (depth function, i-th ancestor, least covering lineage index as a defined spec function) for every forest, genome assignment and distance vector including distances equal to a threshold; monotonicity is a lemma. The check first flagged next_taxon on the original tree (bounded real-code witness: a taxon without threshold returned as next); repaired by a fix: commit and now discharged.',
+		note='Trusted: ORM attribute reads pure, argmin = first minimum, distances/thresholds as reals (no NaN), attrs constructors, finite-forest well-formedness as an axiom.',
+		design='3/C03'),
+	'C09': dict(
+		text='get_result_item is verified against the documented contract of the sort call as written in the source: length min(N, n), every entry a reference with its exact distance and matched taxon, strict (distance, index) lexicographic order, completeness of the prefix, first entry = closest match. With the default (unstable) argsort two clauses were not derivable and the bounded real-code search produced a tie witness; after the fix: commit (kind=stable) all obligations discharge.',
+		note='Trusted: numpy argsort/argmin contracts, slicing, C03 base; comprehension modelled by a generic element. Requires report_closest >= 0.',
+		design='3/C09'),
 	'C15': dict(
 		text='Lemmas over the C02 postcondition: the merge loop, read from both sides, proves inter(A,B) = inter(B,A), so the value is bit-for-bit symmetric and mentions element values only (all nine type pairings); inductive set lemmas (distance 0 iff equal sets, 1 iff disjoint and not both empty) plus bit-precise FP lemmas (range and zero for all sizes < 2^62, one-iff for < 2^24); triangle inequality as a polynomial identity over the seven Venn regions with 61 non-negative monomials plus three half-ulp roundings; strict decrease proved for |A or B|+1 <= 2^23 (standard model of rounding, bit-precise for small sizes). Above 2^23 the strict-decrease obligation fails, the counter-model replays on the real kernel, and it is listed as a known finding.',
 		note='Trusted: C02 base; standard model of correctly rounded arithmetic (half-ulp bound); set arithmetic linking sets to (|A xor B|, |A or B|). Known finding: strict decrease above 2^23 elements (known_findings.json).',
